@@ -309,8 +309,9 @@ pub fn run(tier: Tier) -> i32 {
     let mut states = 0u64;
     let mut transitions = 0u64;
     let mut fix = true;
-    for p in [1u16, 891, 3563] {
-        let mut bcs = vec![0u16, 1, p - 1, p, 3563 - p + 1, 3563];
+    // periods 3564 and 891 + 3564 can never equal a distance modulo 3564: every consecutive internal pair is an error
+    for p in [1u16, 891, 3563, 3564, 4455] {
+        let mut bcs = if p <= 3563 { vec![0u16, 1, p - 1, p, 3563 - p + 1, 3563] } else { vec![0u16, 1, p - 3564, 890, 891, 3563] };
         bcs.sort();
         bcs.dedup();
         let sys = PeriodProduct { period: p, bcs };
